@@ -22,9 +22,29 @@ type ModSpec struct {
 	// NoElem: the module has NO element section at all (Elems may then only initialise globals): ref.func is valid
 	// for its functions because they are exported (imported ()->i32 functions are re-exported for that purpose)
 	NoElem bool `json:"noelem,omitempty"`
+	// Shared linear memory / mutable i32 global (coq/Engine/LifetimeMem.v `mmod`).
+	// Mem: the module defines a memory (1 page, maximum MemMax) and exports it as "mem". ImpM = [j]: it imports the
+	// memory of module j (own or itself imported) and re-exports it as "mem". Either way it exports the accessors
+	// msize(), mload(addr), mstore(addr,v), mgrow(n) running its OWN code on that memory.
+	// GI / ImpGI: the same for a mutable i32 global "gi" with accessors gget(), gset(v).
+	// ImpA: imported accessor functions (module, kind): 0 msize, 1 mload, 2 mstore, 3 mgrow, 4 gget, 5 gset. They are
+	// function imports placed after impf and imps in the record index space (never named by ref.func).
+	Mem   int      `json:"mem,omitempty"`
+	ImpM  []int    `json:"impm,omitempty"`
+	GI    int      `json:"gi,omitempty"`
+	ImpGI []int    `json:"impgi,omitempty"`
+	ImpA  [][2]int `json:"impa,omitempty"`
 }
 
-func (m *ModSpec) nImpRec() int { return len(m.ImpF) + len(m.ImpS) }
+const MemMax = 4
+
+var accName = []string{"msize", "mload", "mstore", "mgrow", "gget", "gset"}
+var accType = []uint32{tConst, tI_I, tII, tI_I, tConst, tI}
+
+func (m *ModSpec) hasMem() bool  { return m.Mem != 0 || len(m.ImpM) > 0 }
+func (m *ModSpec) hasGlob() bool { return m.GI != 0 || len(m.ImpGI) > 0 }
+
+func (m *ModSpec) nImpRec() int { return len(m.ImpF) + len(m.ImpS) + len(m.ImpA) }
 func (m *ModSpec) nRec() int    { return m.nImpRec() + m.NFun }
 func (m *ModSpec) nTab() int    { return len(m.ImpT) + m.NExp + m.NPriv }
 func (m *ModSpec) nHold() int   { return m.nTab() + m.NGlob }
@@ -69,6 +89,24 @@ func Build(self int, mods []ModSpec) []byte {
 		w.Imports = append(w.Imports, c.Cat(c.Name(fmt.Sprintf("m%d", p[0])), c.Name(fmt.Sprintf("tab%d", p[1])),
 			c.B(1, c.FuncRef, 0), c.U32(uint32(m.Size))))
 	}
+	for _, p := range m.ImpA {
+		w.Imports = append(w.Imports, c.ImportFunc(fmt.Sprintf("m%d", p[0]), accName[p[1]], accType[p[1]]))
+	}
+	mx := uint32(MemMax)
+	if len(m.ImpM) > 0 {
+		w.Imports = append(w.Imports, c.Cat(c.Name(fmt.Sprintf("m%d", m.ImpM[0])), c.Name("mem"), c.B(2), c.MemLimits(1, &mx)))
+	}
+	if len(m.ImpGI) > 0 {
+		w.Imports = append(w.Imports, c.Cat(c.Name(fmt.Sprintf("m%d", m.ImpGI[0])), c.Name("gi"), c.B(3, c.I32, 1)))
+	}
+	if m.Mem != 0 {
+		w.Mems = append(w.Mems, c.MemLimits(1, &mx))
+	}
+	if m.hasMem() {
+		w.Exports = append(w.Exports, c.Export("mem", 2, 0))
+	}
+	// global index space: an imported i32 global comes first
+	gbase := uint32(len(m.ImpGI))
 	nit := len(m.ImpT)
 	ntab := m.nTab()
 	scratch := uint32(ntab)
@@ -98,6 +136,14 @@ func Build(self int, mods []ModSpec) []byte {
 	// reads its module context (a call with a dangling context returns something else or faults)
 	for j := 0; j < m.NFun; j++ {
 		w.Globals = append(w.Globals, c.Cat(c.B(c.I32, 1), c.I32Const(constOf(self, j)), c.B(0x0b)))
+	}
+	giIdx := uint32(0)
+	if m.GI != 0 {
+		giIdx = gbase + uint32(m.NGlob+m.NFun)
+		w.Globals = append(w.Globals, c.Cat(c.B(c.I32, 1), c.I32Const(0), c.B(0x0b)))
+	}
+	if m.hasGlob() {
+		w.Exports = append(w.Exports, c.Export("gi", 3, giIdx))
 	}
 	// declarative segment: every function that ref.func may name
 	var decl [][]byte
@@ -129,7 +175,7 @@ func Build(self int, mods []ModSpec) []byte {
 	}
 	// own constant functions first: record index nImpRec()+j  <->  wasm index 1+nImpRec()+j
 	for j := 0; j < m.NFun; j++ {
-		add(fmt.Sprintf("f%d", j), tConst, c.GlobalGet(uint32(m.NGlob+j)))
+		add(fmt.Sprintf("f%d", j), tConst, c.GlobalGet(gbase+uint32(m.NGlob+j)))
 	}
 	isRefable := func(r int) bool { return r < len(m.ImpF) || r >= m.nImpRec() }
 	// push the reference held by holder t (slot = local 0 for tables)
@@ -137,14 +183,14 @@ func Build(self int, mods []ModSpec) []byte {
 		if t < ntab {
 			return c.Cat(c.LocalGet(slotLocal), tableGet(uint32(t)))
 		}
-		return c.GlobalGet(uint32(t - ntab))
+		return c.GlobalGet(gbase + uint32(t-ntab))
 	}
 	// call_indirect through holder t, slot in local 0
 	ind := func(t int) []byte {
 		if t < ntab {
 			return c.Cat(c.LocalGet(0), callInd(uint32(t)))
 		}
-		return c.Cat(c.I32Const(0), c.GlobalGet(uint32(t-ntab)), tableSet(scratch), c.I32Const(0), callInd(scratch))
+		return c.Cat(c.I32Const(0), c.GlobalGet(gbase+uint32(t-ntab)), tableSet(scratch), c.I32Const(0), callInd(scratch))
 	}
 	for r := 0; r < len(m.ImpF); r++ {
 		add(fmt.Sprintf("ci%d", r), tConst, c.Call(widx(r)))
@@ -159,14 +205,14 @@ func Build(self int, mods []ModSpec) []byte {
 			if t < ntab {
 				add(fmt.Sprintf("set%d_%d", t, r), tI, c.LocalGet(0), refFunc(widx(r)), tableSet(uint32(t)))
 			} else {
-				add(fmt.Sprintf("set%d_%d", t, r), tI, refFunc(widx(r)), c.GlobalSet(uint32(t-ntab)))
+				add(fmt.Sprintf("set%d_%d", t, r), tI, refFunc(widx(r)), c.GlobalSet(gbase+uint32(t-ntab)))
 			}
 		}
 		for d := 0; d < m.nHold(); d++ {
 			if d < ntab {
 				add(fmt.Sprintf("cp%d_%d", t, d), tII, c.LocalGet(1), get(t, 0), tableSet(uint32(d)))
 			} else {
-				add(fmt.Sprintf("cp%d_%d", t, d), tII, get(t, 0), c.GlobalSet(uint32(d-ntab)))
+				add(fmt.Sprintf("cp%d_%d", t, d), tII, get(t, 0), c.GlobalSet(gbase+uint32(d-ntab)))
 			}
 		}
 		if t < ntab {
@@ -183,8 +229,8 @@ func Build(self int, mods []ModSpec) []byte {
 			add(fmt.Sprintf("clr%d", t), tI, c.LocalGet(0), refNull(), tableSet(uint32(t)))
 			add(fmt.Sprintf("st%d", t), tStore, c.LocalGet(0), c.LocalGet(1), tableSet(uint32(t)))
 		} else {
-			add(fmt.Sprintf("clr%d", t), tI, refNull(), c.GlobalSet(uint32(t-ntab)))
-			add(fmt.Sprintf("st%d", t), tStore, c.LocalGet(1), c.GlobalSet(uint32(t-ntab)))
+			add(fmt.Sprintf("clr%d", t), tI, refNull(), c.GlobalSet(gbase+uint32(t-ntab)))
+			add(fmt.Sprintf("st%d", t), tStore, c.LocalGet(1), c.GlobalSet(gbase+uint32(t-ntab)))
 		}
 	}
 	for r := 0; r < m.nRec(); r++ {
@@ -195,6 +241,44 @@ func Build(self int, mods []ModSpec) []byte {
 		for q := range m.ImpS {
 			add(fmt.Sprintf("pass%d_%d", r, q), tI, c.LocalGet(0), refFunc(widx(r)), c.Call(widx(len(m.ImpF)+q)))
 		}
+	}
+	// ---- shared memory / global accessors: the module's OWN code on its (own or imported) memory / global ----
+	load := c.Cat(c.B(0x28), c.MemArg(2, 0))
+	store := c.Cat(c.B(0x36), c.MemArg(2, 0))
+	msize := c.B(0x3f, 0)
+	mgrow := c.B(0x40, 0)
+	if m.hasMem() {
+		add("msize", tConst, msize)
+		add("mload", tI_I, c.LocalGet(0), load)
+		add("mstore", tII, c.LocalGet(0), c.LocalGet(1), store)
+		add("mgrow", tI_I, c.LocalGet(0), mgrow)
+		// the same after a host callback (a call in progress while things are closed, grown and collected)
+		add("hkm0", tConst, c.Call(0), msize)
+		add("hkm1", tI_I, c.Call(0), c.LocalGet(0), load)
+		add("hkm2", tII, c.Call(0), c.LocalGet(0), c.LocalGet(1), store)
+		add("hkm3", tI_I, c.Call(0), c.LocalGet(0), mgrow)
+		// hkm6(n): callback; memory.grow n; store 4747 into the last word but one of the memory; memory.size
+		add("hkm6", tI_I, c.Call(0), c.LocalGet(0), mgrow, c.B(0x1a),
+			msize, c.I32Const(16), c.B(0x74), c.I32Const(8), c.B(0x6b), c.I32Const(4747), store, msize)
+	}
+	if m.hasGlob() {
+		add("gget", tConst, c.GlobalGet(giIdx))
+		add("gset", tI, c.LocalGet(0), c.GlobalSet(giIdx))
+		add("hkm4", tConst, c.Call(0), c.GlobalGet(giIdx))
+		add("hkm5", tI, c.Call(0), c.LocalGet(0), c.GlobalSet(giIdx))
+	}
+	// wrappers of the imported accessors: va<q> calls the import, hkva<q> after a host callback
+	for q, p := range m.ImpA {
+		fi := widx(len(m.ImpF) + len(m.ImpS) + q)
+		var args []byte
+		switch accType[p[1]] {
+		case tI_I, tI:
+			args = c.LocalGet(0)
+		case tII:
+			args = c.Cat(c.LocalGet(0), c.LocalGet(1))
+		}
+		add(fmt.Sprintf("va%d", q), accType[p[1]], args, c.Call(fi))
+		add(fmt.Sprintf("hkva%d", q), accType[p[1]], c.Call(0), args, c.Call(fi))
 	}
 	return w.Bytes()
 }
